@@ -485,7 +485,30 @@ def fake_read_csv(filepath_or_buffer, **kw):
     return rpd.DataFrame(data)
 
 
+def _sa_mask(key):
+    """a symbolic-numpy boolean array used as a pandas mask -> real numpy bool array (symbolic elements are decided by forking)"""
+    from . import symnp
+
+    if isinstance(key, symnp.SA) and (key.kind == "b" or all(isinstance(x, (bool, rnp.bool_, symnp.SB)) for x in key.a.ravel())):
+        return rnp.array([bool(x) for x in key.a.ravel()], dtype=bool).reshape(key.a.shape)
+    return key
+
+
+def _patch_pandas_masks():
+    if getattr(rpd.DataFrame, "_sx_mask_patch", False):
+        return
+    for cls in (rpd.DataFrame, rpd.Series):
+        orig = cls.__getitem__
+
+        def getitem(self, key, _orig=orig):
+            return _orig(self, _sa_mask(key))
+
+        cls.__getitem__ = getitem
+    rpd.DataFrame._sx_mask_patch = True
+
+
 def build_pandas():
+    _patch_pandas_masks()
     m = types.ModuleType("pandas")
     for k in dir(rpd):
         try:
